@@ -4,6 +4,7 @@ import Rare.Proofs.C10State
 import Rare.Proofs.C10Src
 import Rare.Proofs.C10Fold
 import Rare.Proofs.C10Conc
+import Rare.Proofs.C10ConcG
 import Rare.Gen.C10
 /-!
 # C10 — optimisation and user-defined functions never change an expression's value
@@ -670,6 +671,43 @@ example :
     (match (Conc.exec false [Comp.match_ 0] (Comp.match_ 0) ctxs [0, 1, 0, 1, 1, 0, 1, 0, 1, 0] st0).pcs 0 with
       | .done r => r = .ok [9] | _ => False) :=
   ⟨⟨fun _ => rfl, by simp, by simp⟩, rfl, rfl, rfl, rfl⟩
+
+/-- **One pool shared by workers that evaluate DIFFERENT stages** (`Model/C10ConcG.lean`): worker `w` overwrites the object it
+    checked out with its own context `ctxs w` and its own values / argument stages `argsOf w`, and evaluates its own body
+    `bodyOf w` – the situation of the process-wide `subContextPool`, which all binder stages of all compiled expressions
+    (and all workers) share.  Under every schedule, from every pool content: exclusive ownership, nothing checked out in the
+    free list, every returned answer the stateless one, and a worker that gets the turns of its own sequential run has
+    returned.  (`userfn_pool_all_schedules` is the instance with constant `argsOf`, `bodyOf`.) -/
+theorem shared_pool_all_schedules (argsOf : Nat → List Stage) (bodyOf : Nat → Stage) (ctxs : Nat → Ctx) (st : ConcG.St)
+    (hs : ConcG.Start st) (sched : List Nat) :
+    let st' := ConcG.exec true argsOf bodyOf ctxs sched st
+    (∀ w w' o, (st'.pcs w).holds = some o → (st'.pcs w').holds = some o → w = w') ∧
+    (∀ w o, (st'.pcs w).holds = some o → o ∉ st'.free) ∧
+    st'.free.Nodup ∧
+    (∀ w r, st'.pcs w = .done r → r = (withArgs (argsOf w) (bodyOf w)).run (ctxs w)) ∧
+    (∀ w, Conc.stepsLeft (argsOf w) (ctxs w) (bodyOf w) + 3 ≤ sched.count w →
+      st'.pcs w = .done ((withArgs (argsOf w) (bodyOf w)).run (ctxs w))) := by
+  have hi := ConcG.start_inv (argsOf := argsOf) (bodyOf := bodyOf) (ctxs := ctxs) hs
+  have h := ConcG.exec_inv sched hi
+  refine ⟨h.excl, fun w o e => (h.held w o e).2, h.nodup, h.done, fun w hw => ?_⟩
+  have hl := ConcG.exec_left w sched hi
+  rw [hs.idle w] at hl
+  have h0 : ((ConcG.exec true argsOf bodyOf ctxs sched st).pcs w).left (argsOf w) (bodyOf w) (ctxs w) = 0 := by
+    rw [hl]; simp only [Conc.Pc.left]; omega
+  obtain ⟨r, hr⟩ := ConcG.left_zero h0
+  rw [hr, h.done w r hr]
+
+/-- **The binders' global pool under every schedule.**  Worker `w` evaluates the inner stage `inner w` of ITS binder on the
+    element values `a w`, `b w` in its context (`sub.Eval(stage, a, b)` on a pooled `subContext{parent, vals}`); all of them
+    take their objects from one pool.  Whatever the schedule and the stale contents, a worker returns `Comp.withSub` – the
+    stateless sub-evaluation `pool_stale_independent` speaks about sequentially (and which `optimize_sound` / the inlining
+    theorems are stated for). -/
+theorem binder_pool_all_schedules (inner : Nat → Stage) (a b : Nat → Bytes) (ctxs : Nat → Ctx) (st : ConcG.St)
+    (hs : ConcG.Start st) (sched : List Nat) (w : Nat) (r : Except String Bytes)
+    (h : (ConcG.exec true (fun w => [.ret (a w), .ret (b w)]) inner ctxs sched st).pcs w = .done r) :
+    r = ((inner w).withSub (a w) (b w)).run (ctxs w) := by
+  rw [ConcG.withSub_eq_withArgs]
+  exact (shared_pool_all_schedules (fun w => [.ret (a w), .ret (b w)]) inner ctxs st hs sched).2.2.2.1 w r h
 
 /-- The two atomic actions of the machine are atomic in the code: `ObjectPool.Get` and `Return` run under the pool's
     mutex from their first statement to their return; `Get` pops the LAST free object or calls `newer()`, `Return`
